@@ -1,3 +1,33 @@
-import sys
+import os, sys
 from .cli import main
-sys.exit( main() )
+
+
+class _Quiet:
+    """stdout that survives a closed pipe ( `./check Cxx quick | head -1` ): the verdict is the exit code, not the text"""
+    def __init__( self, f ):
+        self.f = f; self.dead = False
+    def write( self, s ):
+        if not self.dead:
+            try:
+                return self.f.write( s )
+            except BrokenPipeError:
+                self.dead = True
+        return len( s )
+    def flush( self ):
+        if not self.dead:
+            try:
+                self.f.flush()
+            except BrokenPipeError:
+                self.dead = True
+    def __getattr__( self, k ):
+        return getattr( self.f, k )
+
+
+sys.stdout = _Quiet( sys.stdout )
+rc = main()
+try:
+    sys.stdout.flush()
+finally:
+    if sys.stdout.dead:
+        os.dup2( os.open( os.devnull, os.O_WRONLY ), 1 )
+sys.exit( rc )
